@@ -52,6 +52,10 @@ def run(repo: Repo, rep: Report, tier: str, only_completion: bool = False, names
         _run(repo, rep, tier, only_completion)
     finally:
         rep.fail, rep.ok, rep.check = _orig_fail, _orig_ok, _orig_check
+    # ---- 0 means unlimited, None means unknown ------------------------------------------------
+    from ..lints import zero_legal_truthiness
+    rep.rule("none-not-falsy", "the maximum length is never tested by truthiness (0 = unlimited is a legal value)")
+    zero_legal_truthiness(repo, rep, "none-not-falsy", {"maximum_length", "maximum_length_received"}, modules=("dimse", "dimse_messages", "association", "acse"))
 
 
 def _run(repo: Repo, rep: Report, tier: str, only_completion: bool) -> None:
